@@ -49,7 +49,25 @@ def _rdp(tier, seed):
     return out
 
 
+def _sdd(tier, seed):
+    docs = ["the x", "the x.", "port to use instead of the default one", "DEFAULT is unset", "Default value", "the x. Defaults to 5", "uses defaults", "the x,",
+            "x. Defaults to", "x. Defaults to "]
+    out = []
+    for name, doc, typ, dflt, emit in itertools.product(("x", "kwargs"), docs, ("<absent>", "str", "int", "Optional[str]"),
+                                                        ("<absent>", 5, "abc", "", None, NONESTR, "'q'"), (True, False)):
+        if typ == "int" and not (dflt == "<absent>" or isinstance(dflt, int)):
+            continue
+        p = {"doc": doc}
+        if typ != "<absent>":
+            p["typ"] = typ
+        if dflt != "<absent>":
+            p["default"] = dflt
+        out.append({"param": (name, p), "emit_default_doc": emit})
+    return out
+
+
 CORPORA = {
+    "doctrans.defaults_utils:set_default_doc": _sdd,
     "doctrans.defaults_utils:_remove_default_from_param": _rdp,
     "doctrans.emitter_utils:interpolate_defaults": _idf,
     "doctrans.docstring_parsers:_set_name_and_type": _snt,
